@@ -66,10 +66,10 @@ def main():
         env = dict(os.environ)
         # what MANIFEST.setup_cmd does, on the clean tree: regenerate every Gen file and build everything once
         if not os.environ.get('SEEDTEST_SKIP_SETUP'):
-            sh('git -C %s stash -q' % wt)
+            sh('git -C %s checkout -q -- .' % wt)     # clean tree for the setup (no stash: the stash list is shared by all worktrees)
             env0 = dict(os.environ); env0['VERIF_REPO'] = wt
             rc0, out0 = sh('' + COPY + '/harness/setup.sh', env=env0, timeout=3000)
-            sh('git -C %s stash pop -q' % wt)
+            sh('git -C %s apply %s' % (wt, patch))
             meta['setup_rc'] = rc0
             if rc0 != 0:
                 meta['status'] = 'setup failed in the /verif copy: ' + out0[-500:]
